@@ -77,6 +77,10 @@ GrowOK(old, new, req, max) ==
   /\ new >= Min(old + old \div 2, max)
   /\ new <= max
 
+\* number of reallocations the WEAKEST policy C14 allows (x1.5, at least +1) needs to get from capacity c to target
+RECURSIVE GrowthSteps(_, _)
+GrowthSteps(c, target) == IF c >= target THEN 0 ELSE 1 + GrowthSteps(Max(c + c \div 2, c + 1), target)
+
 \* ---- C05: faults for which the strong guarantee is promised
 StrongFault(cfg, ln) ==
   /\ ln.k[2] = 0
@@ -94,7 +98,7 @@ HasBlock(blocks, id) == \E j \in 1..Len(blocks) : blocks[j][1] = id
 
 StorageChecks(cfg, c, x, blocks) ==
   LET n == NOf(cfg, c) IN
-  { Chk("C02", "size<=capacity",        TRUE, x.sz = Len(x.e) /\ x.sz <= x.cap),
+  { Chk("C02", "size<=capacity",        TRUE, (IF "etrunc" \in DOMAIN x THEN Len(x.e) <= x.sz ELSE x.sz = Len(x.e)) /\ x.sz <= x.cap),
     Chk("C02", "capacity>=inline",      TRUE, x.cap >= n /\ x.icap = n),
     Chk("C02", "capacity<=max",         TRUE, x.cap <= Max(x.max, n)),
     Chk("C02", "inlined<=>cap=N",       TRUE, x.inl <=> (x.cap = n)),
@@ -292,6 +296,18 @@ UnaryChecks(cfg, pre, post, ln) ==
                     y.e = RemoveIf(vs, P) /\ ln.ret = CountIf(vs, P)) }
     [] op = "dtor" ->
          { Chk("C03", "destructor-completes", TRUE, ln.out = "ok" /\ ~y.p) }
+    [] op = "push_n" ->
+         \* long append run (C14): the driver reports the chain of capacities, the number of allocations and the number
+         \* of element relocations of a[1] single appends
+         LET ch == ln.chain
+             n  == a[1]
+             s0 == x.sz          \* (the element list of a long container is logged as a prefix only)
+         IN { Chk("C01", "long-run:size", ln.out = "ok", y.sz = s0 + n /\ y.cap = ch[Len(ch)]),
+              Chk("C14", "long-run:every-reallocation-geometric", ln.out = "ok",
+                  \A j \in 1..(Len(ch) - 1) : GrowOK(ch[j], ch[j + 1], ch[j] + 1, x.max)),
+              Chk("C14", "long-run:one-allocation-per-capacity-change", ln.out = "ok", ln.nalloc = Len(ch) - 1),
+              Chk("C14", "long-run:O(log n)-allocations", ln.out = "ok", ln.nalloc <= GrowthSteps(Max(ch[1], 1), s0 + n)),
+              Chk("C14", "long-run:O(n)-relocations", ln.out = "ok" /\ ln.nreloc >= 0, ln.nreloc <= 3 * (s0 + n) + 3) }
     [] OTHER -> { Chk("INTERNAL", "unknown-op", TRUE, FALSE) }
 
 (***************************************************************************)
